@@ -840,6 +840,8 @@ func verifH_C02_deep_fragments() {
 		{"/components/schemas/D/allOf/+0", 0}, {"/components/schemas/D/allOf/-0", 0}, {"/components/schemas/D/anyOf/+1", 0}, {"/components/schemas/D/anyOf/-1", 0},
 		{"/components/schemas/D/anyOf/3", 0}, {"/components/schemas/D/anyOf/1.0", 0}, {"/components/schemas/D/anyOf/1e0", 0}, {"/components/schemas/D/anyOf/0x1", 0},
 		{"/paths/~1a/get/parameters/+1/schema", 0}, {"/paths/~1a/get/parameters/-0/schema", 0}, {"/paths/~1a/get/parameters/2/schema", 0},
+		// leading zeros are not an index either (RFC 6901)
+		{"/components/schemas/D/anyOf/01", 0}, {"/components/schemas/D/allOf/00", 0}, {"/paths/~1a/get/parameters/01/schema", 0},
 	}
 	f := frags[verifChoose("fragment", len(frags))]
 	external := verifChoose("external", 2) == 1
